@@ -139,3 +139,15 @@ package app
 
 // perrsOk(e): a ParserErrors value as NewParserErrors builds it from the parser's result: a list of existing errors.
 //@ spec perrsOk(e ParserErrors) bool = typeis(e, parserErrors) && forall(i, 0, len(e.(parserErrors).errors), typeis(e.(parserErrors).errors[i], *txt.err))
+
+// The context's input/clock/serialiser accessors, as far as `klog today` (cli.handle) is concerned: nothing is
+// assumed about their results (bodies outside the verifier's subset: file reading, wall clock).
+//@ func (*context).ReadInputs
+//@ trusted
+//@ ensures true
+//@ func (*context).Now
+//@ trusted
+//@ ensures true
+//@ func (*context).Serialise
+//@ trusted
+//@ ensures true
